@@ -434,9 +434,17 @@ class ConditionLike:
                         f"types are: {list(DTYPE_LOOKUP.keys())!r}."
                     )
 
+            # only the condition callables are valid here (not arbitrary attributes of the
+            # condition class); names are matched case-insensitively:
+            callable_names = {
+                name.lower(): name
+                for callables_cls in (GeneralCallables, MapCallables)
+                for name, attr in vars(callables_cls).items()
+                if isinstance(attr, classmethod)
+            }
             try:
-                cond_method = getattr(cls, cond_call_str)
-            except AttributeError:
+                cond_method = getattr(cls, callable_names[cond_call_str])
+            except (KeyError, AttributeError):
                 msg = (
                     f'Condition callable "{cond_call_str}" is not known or not '
                     f'compatible with specified condition type "{condition_type_str}"'
